@@ -140,7 +140,8 @@ def render_audits_file(f, prefix=""):
             out.append(f"[[{prefix}wildcard-audits.{tkey(name)}]]")
             out.extend(render_wildcard(w))
             out.append("")
-    if not f.get("audits"):
+    if not any(f.get("audits", {}).values()):
+        # (also when the table only has crates with EMPTY lists: the file must still carry its `audits` table)
         out.append(f"[{prefix}audits]")
         out.append("")
     for name, l in f.get("audits", {}).items():
